@@ -65,9 +65,9 @@ def _stage(w, it, st):
                 yield x
 
 
-def _sim(xs, stages, term, counted):
-    """-> (value, pulls, log) by the sequence definitions"""
-    w = _World()
+def _sim(xs, stages, term, counted, w=None):
+    """-> (value, pulls, log) by the sequence definitions; `w` carries the pull counter and the log of an earlier run"""
+    w = w or _World()
     it = _source(w, xs, counted)
     for st in stages:
         it = _stage(w, it, st)
@@ -193,6 +193,15 @@ def _cases_for(cid, xs, stages, term):
                     what="counted generator, inside a function"))
     if term[0] == "first":
         return out
+    # (a') the SAME pipeline expression executed twice, over two different sources (nothing may be remembered from the first run)
+    xs2 = [wrap(x * 3 + 1) for x in reversed(xs)] + [4]
+    w = _World()
+    v1, _p, _l = _sim(xs, stages, term, True, w)
+    v2, pulls2, log2 = _sim(xs2, stages, term, True, w)
+    body_t = _pipe_text("mk(a, n)", stages, term)
+    out.append(Case(f"it/{cid}/gen/twice", PRELUDE + f"run := (a: [int], n: int) -> any {{ {body_t} return r }}; "
+                    f"r1 := run({_lit(xs) if xs else '[0]'}, {len(xs)}); r2 := run({_lit(xs2)}, {len(xs2)}); (r1, r2, *pulls, *log)",
+                    (v1, v2, pulls2, log2), what="the same pipeline run twice over different sources"))
     # (b) array~ source (no pull counter): literal array, and elements hidden behind function parameters
     v2, _p, log2 = _sim(xs, stages, term, False)
     if xs:
@@ -229,6 +238,14 @@ FIXED = [
     ([2, 4, 6], [("filter", "p4")], ("all", "b8")), ([5, 2, 7], [("map", "f1")], ("any", "b8")),
 ]
 
+FIXED += [
+    # absorbing / deciding elements early in the sequence: only $&& and $|| may stop there, every other reducer pulls on
+    ([2, 0, 3, 4], [], ("product",)), ([0, 5], [], ("product",)), ([1 << 32, 1 << 32, 7, 9], [], ("product",)), ([3, 0], [("map", "f1")], ("product",)),
+    ([12, 0, 6, 3], [], ("band",)), ([0, -1], [], ("band",)), ([5, -1, 2, 8], [], ("bor",)), ([-1, 0], [], ("bor",)),
+    ([0, 0, 5], [], ("sum",)), ([MAXI, MINI, 1], [], ("sum",)), ([1, 0, 2], [], ("reduce", 1, "g6")), ([0, 7], [("filter", "p4")], ("product",)),
+    ([2, 0, 3], [("map", "f2")], ("band",)), ([9, 1, 9, 1], [], ("all", "b8")), ([1, 9, 1, 9], [], ("any", "b8")),
+]
+
 TYPED = [
     # `it ? T` and typed reducers over non-int elements: (program, expected)
     ('[1, 2.5, "s", 4]~ ? int $]', [1, 4]), ('[1, 2.5, "s", 4]~ ? float $]', [2.5]), ('[1, 2.5, "s", 4]~ ? string $]', ["s"]),
@@ -240,6 +257,17 @@ TYPED = [
     ('[1.5, 2.25]~ $+', 3.75), ('[1.5, 2.0]~ $*', 3.0), ('["a", "bc", ""]~ $+', "abc"),
     ('[0.1, 0.2, 0.3]~ $+', (0.1 + 0.2) + 0.3), ('[1.0e308, 1.0e308, -1.0e308]~ $+', float("inf")),
     ('[true, true]~ $&&', True), ('[true, false]~ $&&', False), ('[false, false]~ $||', False), ('[false, true]~ $||', True),
+    # the same `? T` / `~` / reducer expression evaluated again with other operands
+    ('ints := (a: [int | float]) -> [int] { return a~ ? int $] }; (ints([1, 2.5, 3]), ints([10, 20.5, 30, 40]), ints([0.5]))', ([1, 3], [10, 30, 40], [])),
+    ('strs := (a: [int | string]) -> [string] { return a~ ? string $] }; (strs(["a", 1]), strs([2, "b", "c"]))', (["a"], ["b", "c"])),
+    ('f := () -> [int] { return [1, 2, 3]~ $] }; (f(), f(), f())', ([1, 2, 3], [1, 2, 3], [1, 2, 3])),
+    ('f := (a: [int]) -> int { return a~ $+ }; (f([1, 2]), f([10, 20, 30]), f([1, 2]))', (3, 60, 3)),
+    ('f := (a: [int]) -> [int] { return a~ @ (x: int) -> int { return x * 2 } $] }; (f([1, 2]), f([5]))', ([2, 4], [10])),
+    ('f := (a: [int]) -> [int] { return a~ ? (x: int) -> bool { return x > 1 } $] }; (f([1, 2, 3]), f([0, 9]))', ([2, 3], [9])),
+    ('f := (a: [int]) -> ([int], [int]) { return a~ \\ (x: int) -> bool { return x > 1 } }; (f([1, 2, 3]), f([0, 9]))', (([2, 3], [1]), ([9], [0]))),
+    ('out := mut 0; for i in [1, 2, 3]~ { out += [10, 20, 30]~ $+ } *out', 180),
+    ('out := mut 0; for i in [1, 2]~ { for j in [1, 2, 3]~ { out += i * j } } *out', 18),
+    ('k := mut 0; f := () -> [int] { k += 1; return [*k, *k + 1]~ $] }; (f(), f())', ([1, 2], [2, 3])),
     ('[1, 2, 3]~ $]', [1, 2, 3]), ('[[1, 2], [3]]~ $]', [[1, 2], [3]]), ('["x", "y"]~ $]', ["x", "y"]),
     ('a := [5, 6, 7]; it := a~; (it(), it(), it(), it().0)', ((True, 5), (True, 6), (True, 7), False)),
     ('a := [5, 6]; i1 := a~; i2 := a~; (i1(), i2(), i1(), i2())', ((True, 5), (True, 5), (True, 6), (True, 6))),
@@ -315,5 +343,7 @@ def fam_iter(tier, seed, extra=()):
             term = (t, rng.choice(pool), rng.choice(pool))
         else:
             term = (t,)
+        if t in ("product", "band", "bor") and xs and rng.random() < 0.6:
+            xs[rng.randrange(len(xs))] = {"product": 0, "band": 0, "bor": -1}[t]
         out += _cases_for(f"rnd{k}", xs, stages, term)
     return out
